@@ -441,6 +441,26 @@ func runC14(c *harness.Ctx) {
 	refHandshake := func(conn net.Conn, initiator bool, padLen int, magic uint32, padField uint32) *obfsref.O2 {
 		seed := make([]byte, 16)
 		c.Rand.Fill("ref.seed", seed)
+		// the specification puts no restriction on the seed: also the ends of
+		// its domain
+		switch t.Draw("ref.seedkind", 8) {
+		case 5:
+			for i := range seed {
+				seed[i] = 0
+			}
+			c.Feature("ref-seed-all-zero")
+		case 6:
+			for i := range seed {
+				seed[i] = 0xff
+			}
+			c.Feature("ref-seed-all-ones")
+		case 7:
+			for i := range seed {
+				seed[i] = 0
+			}
+			seed[15] = 1
+			c.Feature("ref-seed-one")
+		}
 		pad := make([]byte, padLen)
 		c.Rand.Fill("ref.pad", pad)
 		if _, err := conn.Write(obfsref.O2Hello(initiator, seed, pad, magic, padField)); err != nil {
